@@ -15,6 +15,11 @@ Streams (the class is re-derived by the model driver from the case text):
              connection under read
   tcp        usevc / truncation -> TCP, reset / eof, chunked reads, short writes
   longname   search names whose escaped text exceeds 255 while the wire form fits
+  syncsub    a sub-query of a compound request (AF_UNSPEC getaddrinfo / gethostbyname, search)
+             completes synchronously inside the submitting call: query-cache hit on a repeated
+             name (qcachettl>0), or a send that fails on the spot with the tries exhausted
+             (tries=1 servers=1 + `fail sendto|socket|connect`), for the A leg, the AAAA leg or
+             both, with scripts on the compound request (cancel / re-submit the same name)
   crashers   close variations of the four defects of the pinned tree
 """
 
@@ -37,6 +42,8 @@ class G:
         self.ops = []
         self.nhost = 0
         self.ss_used = False   # at most one set_servers from a callback per history (no nesting)
+        self.cached = []       # names likely to sit in the query cache (syncsub stream)
+        self.sync = False
 
     def fresh(self):
         t = self.tok
@@ -45,6 +52,9 @@ class G:
 
     def host(self):
         self.nhost += 1
+        r = self.rng.random()
+        if self.sync and self.cached and r < 0.5:
+            return self.rng.choice(self.cached)
         r = self.rng.random()
         if r < 0.55:
             return "h%d.example" % self.nhost
@@ -71,7 +81,8 @@ class G:
 
     def request(self, tok, kind=None, name=None):
         rng = self.rng
-        kind = kind or rng.choice(KINDS)
+        kind = kind or (rng.choice(["gai", "gai", "ghbn", "search", "query", "send"]) if self.sync and rng.random() < 0.6
+                        else rng.choice(KINDS))
         name = name or self.host()
         qt = rng.choice(["A", "A", "AAAA", "MX", "TXT", "PTR"])
         if kind == "send":
@@ -87,16 +98,17 @@ class G:
         if kind == "osearch":
             return "osearch %d %s IN %s" % (tok, name, qt)
         if kind == "gai":
-            fam = rng.choice([0, 0, 0, 4, 6])
+            fam = rng.choice([0, 0, 0, 4, 6]) if not self.sync else rng.choice([0, 0, 0, 0, 4, 6])
             flags = rng.choice(["0x80", "0x80", "0", "0x82", "0x180"])
             svc = rng.choice(["", "", " 80", " http", " -"])
             return "gai %d %s %d %s%s" % (tok, name, fam, flags, svc)
         if kind == "ghbn":
-            return "ghbn %d %s %d" % (tok, name, rng.choice([4, 6, 0]))
+            return "ghbn %d %s %d" % (tok, name, rng.choice([4, 6, 0]) if not self.sync else rng.choice([0, 0, 0, 4, 6]))
+        hi = 3 if self.sync else 200          # syncsub: few addresses, so that PTR answers come from the cache
         if kind == "ghba":
-            return "ghba %d %s" % (tok, rng.choice(["10.11.12.%d" % rng.randint(1, 200), "fd00::%x" % rng.randint(1, 999)]))
+            return "ghba %d %s" % (tok, rng.choice(["10.11.12.%d" % rng.randint(1, hi), "fd00::%x" % rng.randint(1, 5 * hi)]))
         if kind == "gni":
-            return "gni %d %s %d %s" % (tok, rng.choice(["10.11.12.%d" % rng.randint(1, 200), "fd00::%x" % rng.randint(1, 999)]),
+            return "gni %d %s %d %s" % (tok, rng.choice(["10.11.12.%d" % rng.randint(1, hi), "fd00::%x" % rng.randint(1, 5 * hi)]),
                                          rng.choice([0, 53, 80]), rng.choice(["0x0", "0x8", "0x4", "0x3", "0x1a"]))
         raise ValueError(kind)
 
@@ -199,7 +211,7 @@ class G:
 def config(rng, stream):
     c = ["lctrace=1", "serverstatecb=1"]
     c.append("seed=%d" % rng.randint(1, 10 ** 6))
-    ns = rng.choice([1, 1, 1, 2, 3])
+    ns = rng.choice([1, 1, 1, 2, 3]) if stream != "syncsub" else rng.choice([1, 1, 1, 2])
     c.append("servers=%d" % ns)
     if rng.random() < 0.15:
         c.append("servers6=1")
@@ -214,7 +226,7 @@ def config(rng, stream):
         flags.discard("edns")
     if flags or rng.random() < 0.5:
         c.append("flags=" + ",".join(sorted(flags) or ["none"]))
-    c.append("tries=%d" % rng.choice([1, 1, 2, 2, 3]))
+    c.append("tries=%d" % (rng.choice([1, 1, 2, 2, 3]) if stream != "syncsub" else rng.choice([1, 1, 1, 2])))
     c.append("timeout=%d" % rng.choice([100, 500, 1000, 2000]))
     if rng.random() < 0.2:
         c.append("maxtimeout=%d" % rng.choice([1000, 3000]))
@@ -223,7 +235,9 @@ def config(rng, stream):
     if rng.random() < 0.6 or stream == "longname":
         c.append("domains=" + rng.choice(["d.test", "a.test,b.test", "corp.test", "a.test,b.test,c.test", "."]))
         c.append("ndots=%d" % rng.choice([1, 1, 2, 5]))
-    if rng.random() < 0.35:
+    if stream == "syncsub":
+        c.append("qcachettl=%d" % rng.choice([3600, 3600, 60, 0]))
+    elif rng.random() < 0.35:
         c.append("qcachettl=%d" % rng.choice([0, 0, 60, 3600]))
     if rng.random() < 0.25:
         c.append("rotate=1")
@@ -259,9 +273,14 @@ def history(rng, stream, maxops):
         "sockfail": {"req", "cancel"},
         "tcp": {"req", "cancel"},
         "longname": {"req", "cancel"},
+        "syncsub": {"req", "cancel"},
     }[stream]
-    p_script = {"plain": 0.0, "reentrant": 0.6, "reentrant-ss": 0.6, "destroy": 0.5, "sockfail": 0.35, "tcp": 0.3, "longname": 0.3}[stream]
+    p_script = {"plain": 0.0, "reentrant": 0.6, "reentrant-ss": 0.6, "destroy": 0.5, "sockfail": 0.35, "tcp": 0.3, "longname": 0.3, "syncsub": 0.5}[stream]
     destroyed = False
+    if stream == "syncsub":
+        g.sync = True
+        n += 6
+        ops += syncsub_prefix(g)
     while len(ops) < n:
         r = rng.random()
         if r < 0.38:
@@ -274,6 +293,8 @@ def history(rng, stream, maxops):
                 kind = rng.choice(["search", "search", "osearch", "gai", "ghbn"])
                 name = g.longname()
             ops.append(g.request(t, kind, name))
+        elif r < 0.44 and stream == "syncsub":
+            ops += syncsub_step(g, p_script, allow)
         elif r < 0.58:
             ops.append(g.net_op())
         elif r < 0.78:
@@ -284,7 +305,7 @@ def history(rng, stream, maxops):
                 ops.append(rng.choice(["proct", "proc", "run"]))
         elif r < 0.90:
             ops.append("cancel")
-        elif r < 0.93 and stream in ("sockfail", "tcp", "reentrant", "destroy"):
+        elif r < 0.93 and stream in ("sockfail", "tcp", "reentrant", "destroy", "syncsub"):
             ops.append(g.fail_op())
         elif r < 0.94 and stream == "sockfail":
             ops.append(g.fail_op())
@@ -294,7 +315,7 @@ def history(rng, stream, maxops):
             ops.append("setservers %s" % rng.choice(["10.0.0.9", "10.0.0.1,10.0.0.7", "-"]))
         elif r < 0.975 and stream == "tcp":
             ops.append(rng.choice(["connected s0", "connfail s0", "connected s1", "connectlater 1", "flushwrites", "chunk s0 1", "wpat s0 3,0,1000"]))
-        elif r < 0.985 and stream == "destroy" and not destroyed and len(ops) > 2:
+        elif r < 0.985 and stream in ("destroy", "syncsub") and not destroyed and len(ops) > 2:
             ops.append("destroy")
             destroyed = True
         else:
@@ -312,6 +333,68 @@ def history(rng, stream, maxops):
     if rng.random() < 0.3:
         ops.append("rspall an=A:7.7.7.7")
         ops.append("run")
+    return ops
+
+
+def syncsub_prefix(g):
+    """fill the query cache for one or two names: A only, AAAA only, or both legs"""
+    rng = g.rng
+    ops = []
+    for _ in range(rng.choice([1, 1, 2])):
+        name = rng.choice(["c%d.example" % rng.randint(0, 3), "c%d" % rng.randint(0, 3), "c%d.sub.example." % rng.randint(0, 1)])
+        how = rng.choice(["both", "both", "a", "aaaa", "neg"])
+        t = g.fresh()
+        if how == "both":
+            ops.append(g.request(t, rng.choice(["gai", "ghbn"]), name))
+        elif how == "a":
+            ops.append("query %d %s IN A" % (t, name))
+        elif how == "aaaa":
+            ops.append("query %d %s IN AAAA" % (t, name))
+        else:
+            ops.append(g.request(t, rng.choice(["gai", "search"]), name))
+        if how == "neg":
+            ops.append("rspall rcode=%s" % rng.choice(["NXDOMAIN", "NOERROR"]))
+        else:
+            ops.append("rspall an=A:1.2.3.%d:%d" % (rng.randint(1, 250), rng.choice([60, 300, 300, 1])))
+        ops.append(rng.choice(["run", "run", "proc"]))
+        if rng.random() < 0.3:
+            ops += ["rspall an=AAAA:[2001:db8::%x]:300" % rng.randint(1, 99), "run"]
+        g.cached.append(name)
+    return ops
+
+
+def syncsub_step(g, p_script, allow):
+    """a compound request one of whose legs ends inside the submitting call"""
+    rng = g.rng
+    ops = []
+    t = g.fresh()
+    if rng.random() < p_script:
+        r = rng.random()
+        if r < 0.3:
+            ops.append("oncb %d cancel" % t)
+        elif r < 0.6 and g.cached:
+            # re-submit a cached name from the callback: nested synchronous completions
+            t2 = g.fresh()
+            if rng.random() < 0.4:
+                ops.append("oncb %d cancel" % t2)
+            ops.append("oncb %d %s" % (t, g.request(t2, rng.choice(["gai", "ghbn"]), rng.choice(g.cached)).replace(" ", ",")))
+        else:
+            ops += g.with_script(t, 1, allow)
+    r = rng.random()
+    if r < 0.55:
+        # send failing on the spot: first leg, second leg, or (udpmaxq / fresh socket) the open
+        call = rng.choice(["sendto", "sendto", "sendto", "socket", "connect", "bind", "getsockname"])
+        err = rng.choice(["ECONNREFUSED", "ECONNREFUSED", "EPIPE", "ENETUNREACH", "EMFILE", "EACCES", "EAGAIN"])
+        ops.append("fail %s %d %s" % (call, rng.choice([1, 1, 2, 2, 3]), err))
+        if rng.random() < 0.3:
+            ops.append("fail %s %d %s" % (rng.choice(["sendto", "socket"]), rng.choice([1, 2]), rng.choice(["ECONNREFUSED", "EMFILE"])))
+    kind = rng.choice(["gai", "gai", "gai", "ghbn", "ghbn", "search", "ghba", "gni"])
+    name = rng.choice(g.cached) if g.cached and rng.random() < 0.7 else None
+    ops.append(g.request(t, kind, name))
+    if rng.random() < 0.5:
+        ops.append("rspall " + rng.choice(["an=A:1.2.3.4:300", "an=AAAA:[2001:db8::1]:300", "rcode=NXDOMAIN", "rcode=SERVFAIL", "rcode=NOERROR",
+                                           "an=PTR:host1.example:300"]))
+        ops.append(rng.choice(["run", "proc"]))
     return ops
 
 
@@ -347,7 +430,7 @@ def crasher(rng):
 
 def gen(rng, tier, n):
     maxops = 40 if tier in ("quick", "search") else 150
-    streams = ["plain"] * 3 + ["reentrant"] * 4 + ["destroy"] * 2 + ["sockfail"] * 3 + ["tcp"] * 2 + ["longname"] + ["reentrant-ss"]
+    streams = ["plain"] * 3 + ["reentrant"] * 4 + ["destroy"] * 2 + ["sockfail"] * 3 + ["tcp"] * 2 + ["longname"] + ["reentrant-ss"] + ["syncsub"] * 3
     out = []
     for i in range(n):
         if i % 25 == 24:
